@@ -103,6 +103,7 @@ enum SigMode {
   OverDecodedPayload,
   OverOtherB64,
   ByOtherKey,
+  ByEmbeddedKey,
   Garbage,
   Truncated,
   Empty,
@@ -122,6 +123,8 @@ struct Entry {
   sig_mode: SigMode,
   sig: Vec<u8>,
   kid: String,
+  caller_kid: Option<String>,
+  embedded: Option<Key>, // a foreign public key placed in the protected header's `jwk` member
 }
 
 const UNSUPPORTED_ALGS: &[&str] = &["HS256", "RS256", "PS512", "ES384", "none", "ES512"];
@@ -206,6 +209,24 @@ impl Gen<'_> {
     if rng.chance(1, 3) {
       prot.push((format!("x-custom-{}", rng.below(3)), rng.pick(&["1", "\"v\"", "[1,2]", "{\"a\":null}", "true"]).to_string()));
     }
+    // a foreign public key in the protected `jwk` member, optionally carrying the same kid as the caller's key
+    let mut embedded: Option<Key> = None;
+    let mut caller_kid: Option<String> = None;
+    if rng.chance(1, 7) {
+      let foreign = Key::new(alg, 700 + rng.below(4));
+      let jkid = format!("jwk-kid-{}", rng.below(3));
+      let mut v: Value = serde_json::from_str(&foreign.public_jwk_json(None)).unwrap();
+      v["kid"] = json!(jkid);
+      prot.push(("jwk".into(), v.to_string()));
+      caller_kid = match rng.below(4) {
+        0 => None,
+        1 => Some("another-kid".into()),
+        _ => Some(jkid),
+      };
+      embedded = Some(foreign);
+    } else if rng.chance(1, 6) {
+      caller_kid = Some("caller-kid".into());
+    }
     let json_ser = matches!(ser, Ser::Flattened | Ser::General);
     let mut has_unprot = false;
     if json_ser && rng.chance(1, 2) {
@@ -238,7 +259,7 @@ impl Gen<'_> {
       _ => signer.clone(),
     };
     let key_pin = match rng.below(8) {
-      0 => Some(rng.pick(&["EdDSA", "ES256", "ES256K", "HS256"]).to_string()),
+      0 => Some(rng.pick(&["EdDSA", "ES256", "ES256K", "HS256", "eddsa", "ECDH-ES", "EdDSA ", "", "Ed25519"]).to_string()),
       1 | 2 => hdr_alg.clone(),
       _ => None,
     };
@@ -253,7 +274,9 @@ impl Gen<'_> {
       _ => SigMode::Valid,
     };
     let (hdr_alg, b64) = if prot_missing { (None, None) } else { (hdr_alg, b64) };
-    Entry { prot_json, prot_seg, unprot_json, hdr_alg, b64, legal_headers: legal, signer, caller, key_pin, sig_mode, sig: Vec::new(), kid }
+    let embedded = if prot_missing { None } else { embedded };
+    let sig_mode = if embedded.is_some() && !force_legal && rng.chance(2, 3) { SigMode::ByEmbeddedKey } else { sig_mode };
+    Entry { prot_json, prot_seg, unprot_json, hdr_alg, b64, legal_headers: legal, signer, caller, key_pin, sig_mode, sig: Vec::new(), kid, caller_kid, embedded }
   }
 
   fn payload(&mut self) -> Vec<u8> {
@@ -310,6 +333,13 @@ fn sign_entry(rng: &mut Rng, e: &mut Entry, y: &[u8], raw_payload: &[u8]) {
       e.signer.sign(&jwsb::signing_input(&pseg, &other))
     }
     SigMode::ByOtherKey => Key::new(e.signer.alg, 500 + rng.below(5)).sign(&good_input),
+    SigMode::ByEmbeddedKey => match &e.embedded {
+      Some(k) => k.sign(&good_input),
+      None => {
+        e.sig_mode = SigMode::Valid;
+        e.signer.sign(&good_input)
+      }
+    },
     SigMode::Garbage => rng.bytes(64),
     SigMode::Truncated => {
       let mut s = e.signer.sign(&good_input);
@@ -404,12 +434,20 @@ fn build_token(rng: &mut Rng, force_good: bool) -> Token {
   Token { ser, attach, text, detached, y, payload_raw, entries, delegate, order }
 }
 
+fn caller_jwk_json(e: &Entry) -> String {
+  let mut v: Value = serde_json::from_str(&e.caller.public_jwk_json(e.key_pin.as_deref())).unwrap();
+  if let Some(k) = &e.caller_kid {
+    v["kid"] = json!(k);
+  }
+  v.to_string()
+}
+
 fn caller_jwk(e: &Entry) -> Jwk {
-  e.caller.public_jwk(e.key_pin.as_deref())
+  serde_json::from_str(&caller_jwk_json(e)).expect("harness JWK must deserialize")
 }
 
 fn doc_for(e: &Entry) -> CoreDocument {
-  let jwk = e.caller.public_jwk_json(e.key_pin.as_deref());
+  let jwk = caller_jwk_json(e);
   let did = "did:example:c01";
   let j = format!(
     r#"{{"id":"{did}","verificationMethod":[{{"id":"{kid}","controller":"{did}","type":"JsonWebKey","publicKeyJwk":{jwk}}}]}}"#,
@@ -501,7 +539,7 @@ impl Cx {
       "serialization": format!("{:?}", t.ser), "attach": format!("{:?}", t.attach), "token": t.text,
       "detached_payload_b64url": t.detached.as_ref().map(|d| url_encode(d)),
       "entry_index": idx, "protected_json": e.prot_json, "unprotected_json": e.unprot_json,
-      "header_alg": e.hdr_alg, "b64": e.b64, "signer": format!("{:?}", e.signer.alg), "caller_key": e.caller.public_jwk_json(e.key_pin.as_deref()),
+      "header_alg": e.hdr_alg, "b64": e.b64, "signer": format!("{:?}", e.signer.alg), "caller_key": caller_jwk_json(e),
       "key_pin": e.key_pin, "sig_mode": format!("{:?}", e.sig_mode), "delegate": format!("{:?}", t.delegate),
     })
   }
